@@ -55,6 +55,11 @@ class Indenter(PostLex, ABC):
                 raise DedentError('Unexpected dedent to column %s. Expected dedent to %s' % (indent, self.indent_level[-1]))
 
     def _process(self, stream):
+        # The state is per stream. It is set up here and not in process(): this is a generator, and by the time it
+        # runs, streams that were started earlier may have used the object in between.
+        self.paren_level = 0
+        self.indent_level = [0]
+
         token = None
         for token in stream:
             if token.type == self.NL_type:
@@ -75,8 +80,6 @@ class Indenter(PostLex, ABC):
         assert self.indent_level == [0], self.indent_level
 
     def process(self, stream):
-        self.paren_level = 0
-        self.indent_level = [0]
         return self._process(stream)
 
     # XXX Hack for ContextualLexer. Maybe there's a more elegant solution?
